@@ -220,10 +220,10 @@ def check_curved(case, out):
 
 
 FACETS = [
-    Facet("segments", lambda tier: polyline_pairs(1), check_polylines, quick=400, thorough=7000,
+    Facet("segments", lambda tier: polyline_pairs(1), check_polylines, quick=700, thorough=7000,
           rule="pairs of straight segments", case_timeout=120),
-    Facet("polylines", lambda tier: polyline_pairs(4), check_polylines, quick=300, thorough=5000,
+    Facet("polylines", lambda tier: polyline_pairs(4), check_polylines, quick=500, thorough=5000,
           rule="pairs of polylines", case_timeout=120),
-    Facet("curved", lambda tier: curved_pairs(), check_curved, quick=150, thorough=2500,
+    Facet("curved", lambda tier: curved_pairs(), check_curved, quick=300, thorough=2500,
           rule="Bezier pairs and rational arcs: soundness", case_timeout=120),
 ]
